@@ -153,7 +153,8 @@ let run_spec_stream c =
 let run_gen c =
   let open Codec_gen in
   let seed = int_field c "seed" 1 and count = int_field c "count" 10 in
-  let subset_mode = (str_field c "mode" = "subset") in
+  let subset_mode = (str_field c "mode" = "subset" || str_field c "mode" = "mutate_subset") in
+  let mutate_mode = (str_field c "mode" = "mutate" || str_field c "mode" = "mutate_subset") in
   let r = { s = Int64.of_int (seed * 7919 + (if subset_mode then 13 else 0)) } in
   let out = Buffer.create 4096 in
   let made = ref 0 and tries = ref 0 in
@@ -185,6 +186,18 @@ let run_gen c =
          | true, true -> ()
          | _ -> ok := false);
         (match write_frame f with Some b -> (f, b) | None -> ok := false; (f, []))) sizes in
+    (* near-valid mode: damage one field of one frame; the model decoder is the arbiter of what follows *)
+    let mutation = ref "" in
+    let frames =
+      if mutate_mode && !ok then begin
+        let k = below r (List.length frames) in
+        List.mapi (fun i (f, b) ->
+            if i = k then begin
+              let (f', what) = mutate_frame r f in
+              mutation := what;
+              (match write_frame f' with Some b' -> (f, b') | None -> (f, b))
+            end else (f, b)) frames
+      end else frames in
     if !ok then begin
       incr made;
       let pcm = List.map (fun (f, _) -> List.map int_of_z (interleave_frame (sem_frame f))) frames in
@@ -203,8 +216,8 @@ let run_gen c =
         end in
       let hexs = String.concat "" (List.map (Printf.sprintf "%02x") bytes) in
       let frames_json = String.concat "," (List.map (fun fr -> json_ints fr) pcm) in
-      Buffer.add_string out (Printf.sprintf "{\"id\":\"gen-%d-%d\",\"kind\":\"%s\",\"bytes\":\"%s\",\"ch\":%d,\"bps\":%d,\"rate\":%d,\"expect_frames\":[%s],\"expect\":%s}\n"
-                               seed !made kind hexs channels bps rate frames_json (json_ints (List.concat pcm)))
+      Buffer.add_string out (Printf.sprintf "{\"mutation\":\"%s\",\"id\":\"gen-%d-%d\",\"kind\":\"%s\",\"bytes\":\"%s\",\"ch\":%d,\"bps\":%d,\"rate\":%d,\"expect_frames\":[%s],\"expect\":%s}\n"
+                               !mutation seed !made kind hexs channels bps rate frames_json (json_ints (List.concat pcm)))
     end
   done;
   Buffer.add_string out (Printf.sprintf "{\"gen_done\":%d,\"tries\":%d}" !made !tries);
